@@ -1,6 +1,9 @@
 import BlockCiphers.Proofs.Kuznyechik
 import BlockCiphers.Proofs.AesNi
 import BlockCiphers.Proofs.AesNiBytes
+import BlockCiphers.Proofs.AesArmv8
+import BlockCiphers.Proofs.AesArmv8Bytes
+import BlockCiphers.Proofs.KuznyechikNeonModels
 import BlockCiphers.Gen.Decls
 /-
 C12 — encrypt-only, decrypt-only, converted and cloned instances agree
@@ -193,6 +196,169 @@ theorem C12.newEnc_newDec_halves (f : Fam) (k : Bytes) :
     newEnc f k = (newCombined f k).map (·.encrypt) :=
   _root_.BC.AesNi.newEnc_newDec_halves f k
 end BC.AesNi
+
+namespace BC.AesArmv8
+open BC BC.X86 BC.Arm BC.Spec.Aes BC.AesNi
+theorem C12.armv8_Enc.clone_eq (e : Enc) : e.clone = e :=
+  _root_.BC.AesArmv8.Enc.clone_eq e
+end BC.AesArmv8
+
+namespace BC.AesArmv8
+open BC BC.X86 BC.Arm BC.Spec.Aes BC.AesNi
+theorem C12.armv8_Dec.clone_eq (d : Dec) : d.clone = d :=
+  _root_.BC.AesArmv8.Dec.clone_eq d
+end BC.AesArmv8
+
+namespace BC.AesArmv8
+open BC BC.X86 BC.Arm BC.Spec.Aes BC.AesNi
+theorem C12.armv8_Combined.clone_eq (c : Combined) : c.clone = c :=
+  _root_.BC.AesArmv8.Combined.clone_eq c
+end BC.AesArmv8
+
+namespace BC.AesArmv8
+open BC BC.X86 BC.Arm BC.Spec.Aes BC.AesNi
+/-- the encrypt-only type encrypts like the combined type, the decrypt-only type decrypts like it -/
+theorem C12.armv8_enc_only_eq128 (key b : BitVec 128) : (Enc.new128 key).encrypt_block b = encrypt128 key b :=
+  _root_.BC.AesArmv8.enc_only_eq128 key b
+end BC.AesArmv8
+
+namespace BC.AesArmv8
+open BC BC.X86 BC.Arm BC.Spec.Aes BC.AesNi
+theorem C12.armv8_dec_only_eq128 (key b : BitVec 128) : (Dec.new128 key).decrypt_block b = decrypt128 key b :=
+  _root_.BC.AesArmv8.dec_only_eq128 key b
+end BC.AesArmv8
+
+namespace BC.AesArmv8
+open BC BC.X86 BC.Arm BC.Spec.Aes BC.AesNi
+theorem C12.armv8_enc_only_eq192 (key : BitVec 192) (b : BitVec 128) : (Enc.new192 key).encrypt_block b = encrypt192 key b :=
+  _root_.BC.AesArmv8.enc_only_eq192 key b
+end BC.AesArmv8
+
+namespace BC.AesArmv8
+open BC BC.X86 BC.Arm BC.Spec.Aes BC.AesNi
+theorem C12.armv8_dec_only_eq192 (key : BitVec 192) (b : BitVec 128) : (Dec.new192 key).decrypt_block b = decrypt192 key b :=
+  _root_.BC.AesArmv8.dec_only_eq192 key b
+end BC.AesArmv8
+
+namespace BC.AesArmv8
+open BC BC.X86 BC.Arm BC.Spec.Aes BC.AesNi
+theorem C12.armv8_enc_only_eq256 (key : BitVec 256) (b : BitVec 128) : (Enc.new256 key).encrypt_block b = encrypt256 key b :=
+  _root_.BC.AesArmv8.enc_only_eq256 key b
+end BC.AesArmv8
+
+namespace BC.AesArmv8
+open BC BC.X86 BC.Arm BC.Spec.Aes BC.AesNi
+theorem C12.armv8_dec_only_eq256 (key : BitVec 256) (b : BitVec 128) : (Dec.new256 key).decrypt_block b = decrypt256 key b :=
+  _root_.BC.AesArmv8.dec_only_eq256 key b
+end BC.AesArmv8
+
+namespace BC.AesArmv8
+open BC BC.X86 BC.Arm BC.Spec.Aes BC.AesNi
+/-- the direct constructors are the conversions of the encrypt-only instance (any key length `L`, any `N`) -/
+theorem C12.armv8_combined_new_eq_fromEnc (key : Bytes) (n : Nat) : Combined.new key n = Combined.fromEnc (Enc.new key n) :=
+  _root_.BC.AesArmv8.combined_new_eq_fromEnc key n
+end BC.AesArmv8
+
+namespace BC.AesArmv8
+open BC BC.X86 BC.Arm BC.Spec.Aes BC.AesNi
+theorem C12.armv8_dec_new_eq_fromEnc (key : Bytes) (n : Nat) : Dec.new key n = Dec.fromEnc (Enc.new key n) :=
+  _root_.BC.AesArmv8.dec_new_eq_fromEnc key n
+end BC.AesArmv8
+
+namespace BC.AesArmv8
+open BC BC.X86 BC.Arm BC.Spec.Aes BC.AesNi
+theorem C12.armv8_combined_from_enc_clone (e : Enc) : (Combined.fromEnc e).clone = Combined.fromEnc e.clone :=
+  _root_.BC.AesArmv8.combined_from_enc_clone e
+end BC.AesArmv8
+
+namespace BC.AesArmv8
+open BC BC.X86 BC.Arm BC.Spec.Aes BC.AesNi
+theorem C12.armv8_dec_from_enc_clone (e : Enc) : (Dec.fromEnc e).clone = Dec.fromEnc e.clone :=
+  _root_.BC.AesArmv8.dec_from_enc_clone e
+end BC.AesArmv8
+
+namespace BC.AesArmv8
+open BC BC.X86 BC.Arm BC.Spec.Aes BC.AesNi
+theorem C12.armv8_combined_dec_eq (e : Enc) : (Combined.fromEnc e).decrypt = Dec.fromEnc e :=
+  _root_.BC.AesArmv8.combined_dec_eq e
+end BC.AesArmv8
+
+namespace BC.AesArmv8
+open BC BC.X86 BC.Arm BC.Spec.Aes BC.AesNi
+theorem C12.armv8_combined_enc_eq (e : Enc) : (Combined.fromEnc e).encrypt = e :=
+  _root_.BC.AesArmv8.combined_enc_eq e
+end BC.AesArmv8
+
+namespace BC.AesArmv8
+open BC BC.X86 BC.Spec.Aes BC.AesNi
+open BC.Models.Aes BC.Models.AesArmv8
+/-- C12 at the registry level: the Enc-only and Dec-only instances of a key are the two halves of the
+combined instance (so they encrypt / decrypt exactly like it) -/
+theorem C12.armv8_newEnc_newDec_halves (f : Fam) (k : Bytes) :
+    Models.AesArmv8.newCombined f k =
+      (Models.AesArmv8.newEnc f k).map (fun e => { encrypt := e, decrypt := Dec.fromEnc e }) ∧
+    Models.AesArmv8.newDec f k = (Models.AesArmv8.newCombined f k).map (·.decrypt) ∧
+    Models.AesArmv8.newEnc f k = (Models.AesArmv8.newCombined f k).map (·.encrypt) :=
+  _root_.BC.AesArmv8.newEnc_newDec_halves f k
+end BC.AesArmv8
+
+namespace BC.AesArmv8
+open BC BC.X86 BC.Spec.Aes BC.AesNi
+open BC.Models.Aes BC.Models.AesArmv8
+/-- C12: every route of the `route` line reaches an instance that encrypts / decrypts like the combined type
+built directly from the key -/
+theorem C12.armv8_route_instances (k : Bytes) (n : Nat) :
+    Combined.fromEnc (Enc.new k n) = Combined.new k n ∧
+    Dec.fromEnc (Enc.new k n) = Dec.new k n ∧
+    (Combined.new k n).clone = Combined.new k n ∧ (Enc.new k n).clone = Enc.new k n ∧
+    (Dec.new k n).clone = Dec.new k n ∧
+    (Combined.fromEnc (Enc.new k n)).clone = Combined.new k n ∧ (Dec.fromEnc (Enc.new k n)).clone = Dec.new k n ∧
+    Combined.fromEnc (Enc.new k n).clone = Combined.new k n ∧ Dec.fromEnc (Enc.new k n).clone = Dec.new k n ∧
+    (Combined.new k n).decrypt = Dec.new k n ∧ (Combined.new k n).encrypt = Enc.new k n :=
+  _root_.BC.AesArmv8.route_instances k n
+end BC.AesArmv8
+
+namespace BC.Models.KuznyechikNeon
+open BC BC.Kuznyechik
+/-- `NeonKuznyechik` = `Kuznyechik` of the registry, as values, for every key string -/
+theorem C12.neon_new_eq (k : Bytes) : kuznyechik.new k = Models.Kuznyechik.kuznyechik.new k :=
+  _root_.BC.Models.KuznyechikNeon.new_eq k
+end BC.Models.KuznyechikNeon
+
+namespace BC.Models.KuznyechikNeon
+open BC BC.Kuznyechik
+theorem C12.neon_newEnc_eq (k : Bytes) : kuznyechikEnc.new k = Models.Kuznyechik.kuznyechikEnc.new k :=
+  _root_.BC.Models.KuznyechikNeon.newEnc_eq k
+end BC.Models.KuznyechikNeon
+
+namespace BC.Models.KuznyechikNeon
+open BC BC.Kuznyechik
+theorem C12.neon_newDec_eq (k : Bytes) : kuznyechikDec.new k = Models.Kuznyechik.kuznyechikDec.new k :=
+  _root_.BC.Models.KuznyechikNeon.newDec_eq k
+end BC.Models.KuznyechikNeon
+
+namespace BC.Models.KuznyechikNeon
+open BC BC.Kuznyechik
+/-- C12 for the NEON key types: every route of the `route` line reaches the freshly keyed cipher of its target type —
+`c.*` → `Kuznyechik::new`, `e.*` → `KuznyechikEnc::new`, `d.*` → `KuznyechikDec::new` (all defined through
+`EncKeys::new` in lib.rs; `Clone` is the identity on the model values) -/
+theorem C12.neon_routeKeyed_fresh (e : EncKeys) :
+    (∀ r ∈ ["c.new", "c.from_e", "c.from_eref", "c.clone", "c.clone_from_e", "c.from_eclone"],
+      routeKeyed r e = some (keyedC (Neon.EncDecKeys.fromEnc e))) ∧
+    (∀ r ∈ ["e.new", "e.clone"], routeKeyed r e = some (keyedE e)) ∧
+    (∀ r ∈ ["d.new", "d.from_e", "d.from_eref", "d.clone", "d.clone_from_e", "d.from_eclone"],
+      routeKeyed r e = some (keyedD (Neon.DecKeys.fromEnc e))) :=
+  _root_.BC.Models.KuznyechikNeon.routeKeyed_fresh e
+end BC.Models.KuznyechikNeon
+
+namespace BC.Models.KuznyechikNeon
+open BC BC.Kuznyechik
+/-- the three lists above are all the routes of the line protocol -/
+theorem C12.neon_routes_complete : ∀ r ∈ Models.Aes.routeNames,
+    r ∈ ["c.new", "c.from_e", "c.from_eref", "c.clone", "c.clone_from_e", "c.from_eclone"] ++ ["e.new", "e.clone"] ++
+      ["d.new", "d.from_e", "d.from_eref", "d.clone", "d.clone_from_e", "d.from_eclone"] :=
+  _root_.BC.Models.KuznyechikNeon.routes_complete
+end BC.Models.KuznyechikNeon
 
 namespace BC.Thm.C12
 open BC.Gen
